@@ -11,7 +11,7 @@ pub struct Shrunk {
 
 fn fails(property: &str, sc: &Scenario, class: &str, runs: &mut u32) -> bool {
   *runs += 1;
-  let r = crate::runner::run_on_fresh_thread(property, sc);
+  let r = crate::runner::run_isolated(property, sc);
   r.harness_error.is_none() && r.violations.iter().any(|v| v.class == class)
 }
 
